@@ -93,6 +93,13 @@ def frames(ctx, prefix=""):
         st1 = node.statistics_from_samples(None, samples)
         ctx.holds(prefix + "frame/%s: statistics_from_samples leaves the samples unchanged and describes the combined value" % tag,
                   torch.equal(samples, keep) and abs(st1["mean"] - float(want.mean())) < 1e-12)
+        # history: the caller advances the chains in place (same tensor object) and evaluates again
+        samples.copy_(torch.tensor([[1., 1., 0.], [0., 1., 0.], [0., 0., 1.], [1., 0., 0.]], dtype=torch.double))
+        keep2 = samples.clone()
+        out2 = node.apply(None, samples)
+        want2 = eval(tag, {}, {"x": keep2[:, 0], "y": keep2[:, 1]})
+        ctx.holds(prefix + "history/%s: evaluated again on the same tensor object after an in-place change == arithmetic on the current leaves" % tag,
+                  torch.allclose(torch.as_tensor(out2, dtype=torch.double), want2))
 
 
 def run_config(ctx, cfg):
@@ -126,6 +133,20 @@ def run_config(ctx, cfg):
             vc.check("x - y for operands that share a name", (xs - ys).apply(S, X) == xs.val - ys.val)
             vc.check("x + x (the same object twice)", SBSum(xs, xs).apply(S, X) == xs.val + xs.val)
             vc.check("Sum(obs,obs).apply calls each child's apply once", x.calls == 1 and y.calls == 1)
+            # history: the same node is evaluated again with the same state and batch *objects* after their contents
+            # changed (chains advanced in place, parameters trained): the value is the arithmetic on the current leaf values
+            x.val, y.val = vc.fresh_real("x2"), vc.fresh_real("y2")
+            vc.check("history/Sum evaluated again on the same objects after their contents changed == current left + right",
+                     n.apply(S, X) == x.val + y.val)
+            pn = SBProd(x, 3)
+            v1 = pn.apply(S, X)
+            x.val = vc.fresh_real("x3")
+            vc.check("history/Prod evaluated again on the same objects after their contents changed == current product",
+                     pn.apply(S, X) == x.val * 3)
+            deep = (x + y) - (2 * x + 1)
+            d1 = deep.apply(S, X)
+            x.val, y.val = vc.fresh_real("x4"), vc.fresh_real("y4")
+            vc.check("history/a nested composite evaluated again follows its leaves", deep.apply(S, X) == (x.val + y.val) - (2 * x.val + 1))
             for tag, c in scalars():
                 x, y = Leaf(vc.fresh_real("x"), "x"), Leaf(vc.fresh_real("y"), "y")
                 vc.check("Sum(num,obs).apply == num + obs [%s]" % tag, SBSum(c, x).apply(S, X) == c + x.val)
